@@ -307,7 +307,7 @@ def run(ctx):
         ctx.exhaustive = True
         ctx.extra["exhaustive_space"] = (f"correspondence (validation of the model, not the proof): all {len(extra)} call sequences "
                                          f"of length <= 3 over a {na}-call alphabet on the node universe {{1,2,3}}")
-    dis, hist = run_sm(ctx, M, "SC", FIELDS, pred, ctx.n(170, 3000), hist_len=(1, 22), derive=derive,
+    dis, hist = run_sm(ctx, M, "SC", FIELDS, pred, ctx.n(110, 3000), hist_len=(1, 20), derive=derive,
                        corr_name=CORR, extra_histories=extra, weights=WEIGHTS)
     dis = explain(ctx, dis, hist, CORR)
     conclude(ctx, ok, dis, hist)
